@@ -84,6 +84,12 @@ property statement:
   members themselves must be the same object exactly between entities pointing to the same cell (a shallow
   copy, or no copy because the outer object is immutable, leaves them shared).  A few of these shapes are also
   run with layer S's switches.
+
+* layer O (``bounded/c12_objs.py``): the ``objects`` a Selector / ListSelector INHERITS when a subclass redeclares the
+  parameter without ``objects`` (class statement / ``add_parameter`` / copy-on-write of a class-level assignment), with
+  check_on_set=False inherited or given there and a default outside the inherited objects; classes, siblings and
+  instances are declared / created DURING the history.  Oracle: frame rule -- what a subclass or an instance does is
+  never seen by the parent, a sibling, or their instances.
 """
 import itertools
 import logging
@@ -92,6 +98,7 @@ import warnings
 import zlib
 
 from bounded._api import Bounded, REPLAY_HEADER
+from bounded import c12_objs
 
 
 def _header(**kw):
@@ -1448,7 +1455,8 @@ def plan_text(tier):
     exh, smp = plan(tier, 'I', I_CONFIGS[0])
     out.append('layer I (nested values %s x instantiate x constant x B inherits/redeclares): all histories of length %d%s'
                % ('/'.join(I_SHAPES), exh, ''.join(' + %d seeded of length %d' % (n, L) for L, n in smp)))
-    return '; '.join(out) + ' -- per configuration; layer E: the full product (%d cases)' % len(list(e_cases()))
+    return ('; '.join(out) + ' -- per configuration; layer E: the full product (%d cases)' % len(list(e_cases()))
+            + '; ' + c12_objs.plan_text(tier) + ' -- per configuration')
 
 
 def _work(task):
@@ -1456,6 +1464,8 @@ def _work(task):
     _P()
     if layer == 'E':
         return _work_e(task)
+    if layer == 'O':
+        return c12_objs.work(task)
     alphabet = alphabet_of(layer, cfg)
     hits = [0, 0]
     n = 0
@@ -1552,7 +1562,7 @@ def make_tasks(tier, seed):
                 tasks.append((layer, cfg, 'exh', (exh, first), seed))
             for L, count in sampled:
                 tasks.append((layer, cfg, 'rnd', (L, count, 0), seed))
-    return tasks
+    return tasks + c12_objs.make_tasks(tier, seed)
 
 
 def witness_class(clause, layer, ops, cfg=None):
@@ -1592,6 +1602,12 @@ def _run(tier, seed):
              'instances keep what they got).  Layer I: layer V over nested values (tuple of lists, tuple with a dict, '
              'frozenset of a mutable object, tuple of tuple of list, list of lists, dict of lists), in-place '
              'mutation of the INNER member, identity of outer and inner objects <=> same cell.  '
+             'Layer O: a Selector / ListSelector whose subclasses redeclare it WITHOUT objects (inherited from the '
+             'parent Parameter; check_on_set=False inherited / given; default outside the inherited objects), classes '
+             'A <- {S, B <- C, T} declared during the history by class statement / plain + add_parameter: {declare, '
+             'add_parameter, create instance (with / without keyword), class-level set of an unlisted value, append to '
+             'the objects of a class / an instance, instance set, read obj.param.s}; frame rule: the parent, the siblings '
+             'and their instances, and other instances never see what a subclass / an instance does.  '
              'Distinct = distinct (layer, configuration, history); histories using an instance '
              'before creating it are not generated.' % MAXI,
         bound='%s: %s' % (tier, plan_text(tier)))
@@ -1603,6 +1619,7 @@ def _run(tier, seed):
     total = 0
     fails, failcount = [], {}
     efails = []
+    ofails = []
     for (layer, cfg, mode, arg, _), (l2, m2, n, hits, fl, fc, samples) in zip(tasks, results):
         total += n
         if layer == 'E':
@@ -1611,6 +1628,15 @@ def _run(tier, seed):
             efails += fl
             for c, k in fc.items():
                 failcount[c] = failcount.get(c, 0) + k
+            continue
+        if layer == 'O':
+            B.checked('C12/O/frame:parent+siblings+other-instances-unchanged', hits[0])
+            B.checked('C12/O/value-rules+effect', hits[1])
+            ofails += [(f[0], cfg, f[1], f[2]) for f in fl]
+            for c, k in fc.items():
+                failcount[c] = failcount.get(c, 0) + k
+            for smp in samples:
+                B.sample(smp)
             continue
         B.checked('C12/%s/%s' % (layer, 'value==cell-content' if layer in 'VRDSI' else 'frame:others-unchanged'), hits[0])
         B.checked('C12/%s/%s' % (layer, 'identity<=>same-cell' if layer in 'VRDSI' else 'value-rules+effect+sharing'), hits[1])
@@ -1660,6 +1686,33 @@ def _run(tier, seed):
         det = run_any(layer, cfg, mops)[2]
         B.violation(clause, w, det, replay_script(layer, cfg, mops, clause, w))
         seen[wk] = B.violations[-1]
+    # layer O: shortest failing history of every clause first; one witness per (clause, kinds of the minimal history)
+    ofails.sort(key=lambda f: (f[0], len(f[2]), c12_objs.O_CONFIGS.index(f[1]), f[2]))
+    oseen, obudget = {}, {}
+    for clause, cfg, ops, detail in ofails:
+        if clause == 'C12/harness/error':
+            B.violation(clause, c12_objs.witness_text(cfg, ops), detail)
+            continue
+        obudget[clause] = obudget.get(clause, 0) + 1
+        if obudget[clause] > 6:
+            continue
+        try:
+            mops = c12_objs.shrink(cfg, ops, clause)
+        except Exception as e:
+            B.note('shrink failed: %s %s %r' % (clause, c12_objs.witness_text(cfg, ops), e))
+            continue
+        if mops is None:
+            B.note('not confirmed: %s %s' % (clause, c12_objs.witness_text(cfg, ops)))
+            continue
+        wk = (clause, c12_objs.witness_class(clause, mops))
+        if wk in oseen:
+            oseen[wk]['count'] += 1
+            continue
+        w = c12_objs.witness_text(cfg, mops)
+        det = c12_objs.o_run(cfg, mops)[2]
+        B.violation(clause, w, det, c12_objs.replay_script(cfg, mops, clause, w, _header(
+            prop='C12', name='replay_c12.py', clause=clause, witness=w)))
+        oseen[wk] = B.violations[-1]
     # layer E: one witness per (clause, parameter kind class, route); the simplest case of each class
     order = {n: i for i, n in enumerate(k[0] for k in E_KINDS)}
     efails.sort(key=lambda f: (f[0], E_ROUTES.index(f[1]['route']), E_SUBS.index(f[1]['sub']), E_READS.index(f[1]['read']),
